@@ -133,7 +133,7 @@ def build_tu(unit, tier, work):
     lines.append('#ifdef VNATIVE')
     lines.append('void %s(void) { HARNESS(); }' % entry)
     lines.append('#else')
-    lines.append('void %s(void) { v_havoc_ghosts(); HARNESS(); __CPROVER_assert(gk == 0, "VACUITY_CANARY ghost witness is unconstrained"); }' % entry)
+    lines.append('void %s(void) { v_havoc_ghosts(); HARNESS(); __CPROVER_assert(g_canary == 0, "VACUITY_CANARY ghosts are havocked"); }' % entry)
     lines.append('#endif')
     tu = os.path.join(work, 'tu.c')
     with open(tu, 'w') as f:
@@ -151,7 +151,7 @@ def cbmc_flags(unit):
     if unit['objbits']:
         flags += ['--object-bits', str(unit['objbits'])]
     if unit['solver']:
-        flags += [unit['solver']]
+        flags += unit['solver'].split()
     return flags
 
 
@@ -197,7 +197,7 @@ def run_unit(unit, tier, keep=False, verbose=False):
             if rc != 0:
                 raise Undecided('goto-instrument failed: ' + _tail(os.path.join(work, 'gi.log')))
         # 3. solve
-        cmd = ['cbmc', '--json-ui', '--trace', '--trace-hex'] + cbmc_flags(unit) + [b_gb]
+        cmd = ['cbmc', '--json-ui', '--trace', '--trace-hex', '--drop-unused-functions'] + cbmc_flags(unit) + [b_gb]
         res['cmd'] = ' '.join(['goto-cc ... --function', entry, '&&', 'goto-instrument --dfcc', entry,
                                ('--enforce-contract %s/%s' % (unit['enforce'], unit['contract'])) if unit['enforce'] else '',
                                ' '.join('--replace-call-with-contract ' + r for r in unit['replace']),
